@@ -1,9 +1,10 @@
 (* C06 - incomplete annotations are rejected independent of the value (checker part: a generic
    without type arguments, in typing or builtin spelling).  The parameter / return part (missing
    annotations in a signature) lives with the model of the @pedantic wrapper.                  *)
-From Coq Require Import List Arith Bool ZArith.
+From Coq Require Import List Arith Bool ZArith String.
 From PV Require Import Base.Exn Base.Values Base.Ann Model.CheckerCfg Model.Checker Spec.Conforms
-  Gen.CheckerTables Proofs.CheckerGood Proofs.CheckerRefine Proofs.CheckerSpec Proofs.CheckerTop.
+  Gen.CheckerTables Proofs.CheckerGood Proofs.CheckerRefine Proofs.CheckerSpec Proofs.CheckerTop
+  Base.PyCall Model.PedanticCfg Model.Pedantic Gen.Pedantic Proofs.PedanticBase Proofs.PedanticC06.
 Import ListNotations.
 
 Definition cfg := Gen.CheckerTables.checker_cfg.
@@ -12,7 +13,7 @@ Theorem C06_generated_config_good : cfg_good cfg = true.
 Proof. vm_compute. reflexivity. Qed.
 Print Assumptions C06_generated_config_good.
 
-Lemma good : good_facts cfg.
+Lemma good : CheckerGood.good_facts cfg.
 Proof. apply cfg_good_facts. exact C06_generated_config_good. Qed.
 
 (* list, dict, set, frozenset, tuple, type and typing.List, Dict, Set, FrozenSet, Tuple, Type, Callable,
@@ -29,6 +30,37 @@ Theorem C06_bare_forms : forallb bare
    map ABare [TList; TDict; TSet; TFrozenSet; TTuple; TType; TCallable; TIterable; TSequence]) = true.
 Proof. reflexivity. Qed.
 Print Assumptions C06_bare_forms.
+
+(* ---- the wrapper half: missing annotations in the signature of a @pedantic function ---------------------------
+   over the call protocol regenerated from function_call.py / fn_deco_pedantic.py (Gen/Pedantic.v), for EVERY
+   checker, every signature, every call (keyword or positional, any values) and every body *)
+Theorem C06_generated_protocol_good : pc_good Gen.Pedantic.pedantic_cfg = true.
+Proof. vm_compute. reflexivity. Qed.
+Print Assumptions C06_generated_protocol_good.
+
+(* a named, *args or **kwargs parameter without annotation: the call raises and the body does not run *)
+Theorem C06_missing_param_annotation : forall check consumes f c bd,
+  missing_named f \/ missing_varpos f \/ missing_varkw f ->
+  never_ok (fst (run Gen.Pedantic.pedantic_cfg check consumes f c bd))
+  /\ snd (run Gen.Pedantic.pedantic_cfg check consumes f c bd) = [].
+Proof. intros check consumes. exact (missing_param_annotation _ check consumes C06_generated_protocol_good). Qed.
+Print Assumptions C06_missing_param_annotation.
+
+(* no return annotation: no value is handed back (the body may have run) *)
+Theorem C06_missing_return_annotation : forall check consumes f c bd, f_ret f = None ->
+  never_ok (fst (run Gen.Pedantic.pedantic_cfg check consumes f c bd)).
+Proof. intros check consumes. exact (missing_return_annotation _ check consumes C06_generated_protocol_good). Qed.
+Print Assumptions C06_missing_return_annotation.
+
+(* non-vacuity: def f(a, b: int) -> None, first parameter without annotation *)
+Definition ex_text : text_flags := {| t_star_args := false; t_staticmethod := false; t_setter := false; t_pedantic := true; t_n_at := 1 |}.
+Definition ex_f : fn := {| f_name := "f"%string; f_dotted := false;
+  f_params := [{| p_name := 1; p_kind := PosOrKw; p_ann := None; p_default := None |};
+               {| p_name := 2; p_kind := PosOrKw; p_ann := Some (ACls CInt); p_default := None |}];
+  f_bound := None; f_first_arg := Some 1; f_ret := Some ANone; f_coroutine := false; f_generator := false;
+  f_text := ex_text; f_setter := false; f_recv := false |}.
+Example ex_missing_named : missing_named ex_f.
+Proof. exists {| p_name := 1; p_kind := PosOrKw; p_ann := None; p_default := None |}. split; [cbn; tauto | reflexivity]. Qed.
 
 Example ex_empty_list_still_rejected :
   fst (assert_matches1 cfg (fun _ => None) (ACls CList) (VList []) []) = Raise PTypeCheckC
